@@ -8,6 +8,7 @@ CONSTANTS
   MaxStepFaults = 2
   Vs <- MC_VsHead
   WithRelease = TRUE
+  WithTrunc = FALSE
   MaxSess = 2
 INVARIANT ExactlyOnce
 INVARIANT Intact
